@@ -12,7 +12,7 @@ func init() {
 	register(&PropDef{
 		ID:    "C49",
 		Pkgs:  []string{xsrv, xdsrsrc},
-		Claim: "Decides the structural part: lookup chains the four stages by data flow (destination prefix -> source type -> source prefix -> source port) on the connection's own addresses/port; the default filter chain is returned only on the arms where a stage produced nothing, and the matched chain is the non-nil result of the port stage; both prefix stages (sibling check) skip entries whose valid prefix does not contain the address, skip entries less specific than the current best, restart the candidate list exactly when an entry is more specific (recording its size as the new best) and keep equally specific ones; the source-type stage prefers the connection's own type over 'any' with the same better/equal/worse discipline; the port stage prefers the exact port over the wildcard port 0; ties are rejected: more than one surviving source prefix is an error, and validation inserts a filter chain for a source port only after finding that slot empty.",
+		Claim: "Decides the structural part: lookup chains the four stages by data flow (destination prefix -> source type -> source prefix -> source port) on the connection's own addresses/port; the default filter chain is returned only on the arms where a stage produced nothing, and the matched chain is the non-nil result of the port stage; both prefix stages (sibling check) skip entries whose valid prefix does not contain the address, skip entries less specific than the current best, restart the candidate list exactly when an entry is more specific (recording its size as the new best) and keep equally specific ones; the source-type stage prefers the connection's own type over 'any' with the same better/equal/worse discipline; the port stage prefers the exact port over the wildcard port 0; ties are rejected: more than one surviving source prefix is an error, and validation inserts a filter chain for a source port only after finding that slot empty. The prefix length is used only for a real prefix, every entry of each stage is considered, 'no match' is returned only when nothing survived, the port stage returns the exact-port chain, then the wildcard chain, and nothing only without both; the wildcard slot is used exactly for chains without source ports.",
 		NotDecided:  []string{"that destination-prefix / source-type / source-prefix duplicates are all rejected at validation (only the source-port slot check is decided)", "agreement with a reference most-specific-match over all chain sets"},
 		Assumptions: []string{"net/netip Prefix.Contains/Bits semantics"},
 		Technique:   "static analysis: data-flow chaining of call results, dominating guards and refusing-arm unreachability on go/ssa, phi-edge pairing for best-so-far tracking (sibling cross-check of the two prefix stages), check-then-insert for map updates",
